@@ -425,7 +425,7 @@ def gen_poly(rng, need_inp):
         mons[(0, 0, 0, 1)] = Fr(1)
     return [[str(c), *e] for e, c in sorted(mons.items())]
 
-def gen_net_model(rng):
+def _gen_net_model(rng):
     nn = rng.randint(2, 4)
     ops = {nm: dict(px=gen_poly(rng, True), pv=gen_poly(rng, False)) for nm in ["opa", "opb"][:rng.randint(1, 2)]}
     for o in ops.values():
@@ -441,8 +441,130 @@ def gen_net_model(rng):
                            k=[nd["k"] if rng.random() < 0.5 else dy(rng, -8, 8, 4) for nd in nodes]))
     return dict(kind="net", ops=ops, nodes=nodes, edges=edges, points=points)
 
-def frac_ok(rows):
-    return all(abs(v.numerator).bit_length() <= 50 and v.denominator.bit_length() <= 50 for r in rows for v in r)
+# ---- float64 exactness by construction -----------------------------------------------------------------------------------
+# The deciding streams compare float64 results with exact rationals, so every generated case must be one on which float64
+# arithmetic is exact WHATEVER order / association / distribution the generated code uses.  A magnitude bound is propagated:
+# Mag = (A, D): |value| <= A and the value is an integer multiple of 1/D (D a power of two).  For sums A adds and D is the max, for
+# products both multiply; evaluating an expression on the absolute values of its operands therefore bounds every intermediate of
+# every evaluation order (partial sums, partial products, expanded or factored forms).  A case is accepted only if A*D < 2^50 and
+# D <= 2^50 for every expression: each intermediate is then n/D with |n| < 2^50, exactly representable (53-bit significand) with
+# margin, and IEEE +,-,* return it exactly.  Cases failing the bound are resampled (never compared with a tolerance).
+EXACT_BITS = 50
+
+class Mag:
+    __slots__ = ("A", "D")
+    def __init__(self, A, D=1):
+        self.A = Fr(A); self.D = int(D)
+    @staticmethod
+    def of(x):
+        f = Fr(x)
+        assert f.denominator & (f.denominator - 1) == 0, x
+        return Mag(abs(f), f.denominator)
+    def __add__(self, o):
+        return Mag(self.A + o.A, max(self.D, o.D))
+    def __mul__(self, o):
+        return Mag(self.A * o.A, self.D * o.D)
+    def ok(self):
+        return self.D <= 2 ** EXACT_BITS and self.A * self.D < 2 ** EXACT_BITS
+
+ZERO = Mag(0, 1)
+
+def msum(ms):
+    r = ZERO
+    for m in ms:
+        r = r + m
+    return r
+
+def lin_abs(case):
+    """|coefficient| of every term of the linear right-hand side as separate contributions (incl. the delayed edge, whatever its delay)"""
+    nn = len(case["nodes"]); M = [[Fr(0)] * (2 * nn) for _ in range(2 * nn)]
+    for j, nd in enumerate(case["nodes"]):
+        M[2 * j][2 * j] += abs(Fr(nd["a"])); M[2 * j + 1][2 * j] += abs(Fr(nd["h"])); M[2 * j + 1][2 * j + 1] += abs(Fr(nd["c"]))
+        if nd.get("cls", 0) == 0:
+            M[2 * j][2 * j + 1] += abs(Fr(nd["g"]))
+    for s_, t_, w in case["edges"]:
+        M[2 * t_][2 * s_] += abs(Fr(w))
+    if case.get("delay"):
+        s_, t_, w, _d = case["delay"]
+        M[2 * t_][2 * s_ + 1] += abs(Fr(w))
+    return M
+
+def traj_exact(case):
+    """bound propagation for Euler and Heun (both corrector conventions have the same bound) over all steps any backend executes"""
+    M = lin_abs(case); n = len(M); dt = Mag.of(case["dt"]); half = Mag(Fr(1, 2), 2)
+    U = Mag(max([abs(Fr(x)) for x in case["u"]] + [Fr(0)]), 2) if case["u"] else None
+    coef = [[Mag(M[i][j], 2) for j in range(n)] for i in range(n)]
+    def f(B):
+        return [msum([coef[i][j] * B[j] for j in range(n) if M[i][j]]) + (U if (U and i == 0) else ZERO) for i in range(n)]
+    for variant in ("euler", "heun"):
+        B = [Mag.of(nd[k]) for nd in case["nodes"] for k in ("x", "v")]
+        for _ in range(case["steps"] + case["ss"]):
+            k1 = f(B)
+            yp = [b + dt * k for b, k in zip(B, k1)]
+            if variant == "euler":
+                allm, B = k1 + yp, yp
+            else:
+                k2 = f(yp)
+                B2 = [b + half * dt * (ka + kb) for b, ka, kb in zip(B, k1, k2)]
+                allm, B = k1 + yp + k2 + B2, B2
+            if not all(m.ok() for m in allm):
+                return False
+    return True
+
+def pop_exact(case):
+    sizes = [len(p["x"]) for p in case["pops"]]
+    B = [[Mag.of(v) for v in p["x"]] for p in case["pops"]]
+    dt = Mag.of(case["dt"])
+    for _ in range(case["steps"] + case["ss"]):
+        new = []
+        for t, p in enumerate(case["pops"]):
+            row = []
+            for i in range(sizes[t]):
+                terms = [Mag.of(p["eta"][i]), Mag.of(p["a"][i]) * B[t][i]]
+                for c in case["conns"]:
+                    if c["t"] != t:
+                        continue
+                    for j in range(sizes[c["s"]]):
+                        w = Mag(abs(Fr(c["W"][i][j])), 2)
+                        bs, bt = B[c["s"]][j], B[t][i]
+                        cv = bs if c["kind"] == 0 else (bs + bt if c["kind"] == 1 else bs * bt + bs)
+                        terms.append(w * cv)           # kept even for a zero weight: the product is formed by wsum / matvec
+                rhs = msum(terms)
+                y = B[t][i] + dt * rhs
+                if not (rhs.ok() and y.ok() and all(m.ok() for m in terms)):
+                    return False
+                row.append(y)
+            new.append(row)
+        B = new
+    return True
+
+def net_exact(case):
+    for pt in case["points"]:
+        xs = [Mag.of(x) for x, _ in pt["state"]]; vs = [Mag.of(v) for _, v in pt["state"]]
+        for j, nd in enumerate(case["nodes"]):
+            inp = msum([Mag.of(w) * xs[s_] for s_, t_, w in case["edges"] if t_ == j])
+            k = Mag.of(pt["k"][j]) + Mag.of(nd["k"])
+            o = case["ops"][nd["op"]]
+            for poly in (o["px"], o["pv"]):
+                terms = []
+                for c, a_, b_, k_, d_ in poly:
+                    m = Mag.of(c)
+                    for fac, e in ((xs[j], a_), (vs[j], b_), (k, k_), (inp, d_)):
+                        for _ in range(e):
+                            m = m * fac
+                    terms.append(m)
+                terms += [Mag(abs(Fr(c)), 4) for c in o.get("sp", {}).values()]
+                if not (msum(terms).ok() and inp.ok()):
+                    return False
+    return True
+
+def rollnet_exact(case):
+    for pt in case["points"]:
+        xm = Mag(max(abs(Fr(v)) for v in pt["x"]), 4); zm = Mag(max(abs(Fr(v)) for v in pt["z"]), 4)
+        a, k, g = Mag.of(pt["a"]), Mag.of(pt["k"]), Mag.of(pt["g"])
+        if not ((a * xm + k * xm + g * zm).ok() and (xm + a * zm).ok()):
+            return False
+    return True
 
 def lin_matrix(case):
     nn = len(case["nodes"]); M = [[Fr(0)] * (2 * nn) for _ in range(2 * nn)]
@@ -453,28 +575,6 @@ def lin_matrix(case):
     for s, t, w in case["edges"]:
         M[2 * t][2 * s] += Fr(w)
     return M
-
-def py_traj(case, variant):
-    """exact reference used only to filter out cases whose values would not be representable in float64"""
-    M = lin_matrix(case); n = len(M); dt = Fr(case["dt"]); u = [Fr(x) for x in case["u"]]
-    def f(t, y):
-        r = [sum(M[i][j] * y[j] for j in range(n)) for i in range(n)]
-        if u:
-            r[0] += u[min(t, len(u) - 1)]
-        return r
-    y = [Fr(nd[k]) for nd in case["nodes"] for k in ("x", "v")]
-    rows = []
-    for i in range(case["steps"] + case["ss"]):
-        rows.append(list(y))
-        k1 = f(i, y)
-        if variant == "euler":
-            y = [a + dt * b for a, b in zip(y, k1)]
-        else:
-            yp = [a + dt * b for a, b in zip(y, k1)]
-            k2 = f(i + (1 if variant == "jheun" else 0), yp)
-            y = [a + dt / 2 * (b + c) for a, b, c in zip(y, k1, k2)]
-        rows.append(k1)
-    return rows
 
 def gen_lin_model(rng, with_input):
     while True:
@@ -491,7 +591,7 @@ def gen_lin_model(rng, with_input):
             steps += ss - steps % ss
         u = [str(Fr(rng.randint(-8, 8), 2)) for _ in range(steps + ss + 2)] if with_input else []
         case = dict(kind="traj", nodes=nodes, edges=edges, dt=str(dt), steps=steps, ss=ss, u=u)
-        if -(-case["steps"] // ss) >= 2 and all(frac_ok(py_traj(case, v)) for v in ("euler", "heun", "jheun")):
+        if -(-case["steps"] // ss) >= 2 and traj_exact(case):
             return case          # (a run with ONE stored row and >= 2 outputs raises in run(): np.squeeze; not a backend matter)
 
 def gen_vec_model(rng, with_input, delay):
@@ -513,10 +613,10 @@ def gen_vec_model(rng, with_input, delay):
             s_ = rng.choice(tgt); t_ = rng.choice(src)
             case["delay"] = [s_, t_, str(Fr(rng.choice([-3, -1, 1, 3]), 2)), rng.choice([2, 3])]
             case["steps"] = steps = 6 * ss
-        if all(frac_ok(py_traj(case, v)) for v in ("euler", "heun", "jheun")):
+        if traj_exact(case):
             return case
 
-def gen_pop_model(rng):
+def _gen_pop_model(rng):
     val = lambda lo, hi, den=2: str(Fr(rng.randint(lo, hi), den))
     sizes = [rng.randint(2, 4), rng.randint(2, 4)]
     r = rng.random()
@@ -535,12 +635,24 @@ def gen_pop_model(rng):
     ss = rng.choice([1, 1, 2])
     return dict(kind="pop", pops=pops, conns=conns, dt=str(Fr(1, rng.choice([2, 4]))), steps=rng.choice([2, 3]) * ss, ss=ss)
 
-def gen_rollnet(rng):
+def _gen_rollnet(rng):
     N = rng.randint(2, 6)
     sh = lambda: rng.choice([-1, -1, -2, 1, 2, -N, N + 1, -(N + 1), rng.randint(-7, 7)])
     vec = lambda: [dy(rng, -8, 8, 4) for _ in range(N)]
     return dict(kind="rollnet", n=N, shifts=[sh(), sh(), sh()],
                 points=[dict(x=vec(), z=vec(), a=dy(rng, -4, 4, 2), k=dy(rng, -4, 4, 2), g=dy(rng, -4, 4, 2)) for _ in range(3)])
+
+def _until(gen, ok):
+    def g(rng):
+        while True:
+            c = gen(rng)
+            if ok(c):
+                return c
+    return g
+
+gen_pop_model = _until(_gen_pop_model, pop_exact)          # resample until float64 arithmetic is exact by construction (see Mag)
+gen_net_model = _until(_gen_net_model, net_exact)
+gen_rollnet = _until(_gen_rollnet, rollnet_exact)
 
 def gen_hooks(rng, backend):
     nv = rng.randint(1, 4)
@@ -969,8 +1081,11 @@ def check(ctx):
                         "distinct = distinct canonical JSON",
                    samples=[c for c in cases if c["kind"] == "traj"][:1] + [c for c in cases if c["kind"] == "interp"][:1],
                    extra=dict(input_distribution=hist, impl_vs_model_mismatches=len(badI), impl_vs_spec_mismatches=len(badS), support=notes),
-                   trusted_base=["float64 arithmetic of numpy / torch / XLA / gfortran is exact on the generated dyadic data (checked: compared as exact rationals; "
-                                 "trajectory cases are pre-filtered so that every exact value fits in 50 bits)",
+                   trusted_base=["float64 arithmetic of numpy / torch / XLA / gfortran is exact on the generated dyadic data BY CONSTRUCTION: every deciding case (net, rollnet, "
+                                 "traj incl. vectorized and delayed, pop) is accepted by the generator only if a magnitude bound (|value| <= A, value multiple of 1/D, propagated through "
+                                 "sums and products on absolute values, over every step any backend executes) gives A*D < 2^50 and D <= 2^50 for every expression - then every "
+                                 "intermediate of every evaluation order is an exactly representable float64 with margin; other candidates are resampled; interp grids have power-of-two "
+                                 "spacings and hooks are integers. No comparison is ever loosened",
                                  "torch.searchsorted, torch.clamp, jax.numpy.interp, numpy.interp, gfortran cshift/do-loop semantics are library/compiler "
                                  "behaviour, modelled by their documented meaning and exercised by the interp/hooks cases",
                                  "transcendental functions, matmul and the adaptive solvers are outside the model (support stream with tolerance only)"],
